@@ -7,6 +7,7 @@ CONSTANTS
   MaxMut = 1000
   MaxFault = 1000
   MaxEnv = 1000
+  MaxHold = 1000
   SimLen = 40
   WReply = 6
   WDeliver = 6
